@@ -394,6 +394,26 @@ def registry(ctx: Ctx, rule: str) -> None:
         raise AnalysisError(f"only {n} registered backends found, expected 8")
 
 
+def skip_guards_first(ctx: Ctx, rule: str) -> None:
+    """All seven per-object loops start with the same two guards: skipped object types and read-only images are left alone
+    before anything else is looked at (the listing operation included)."""
+    for op in ("show", "check", "get", "set", "unset", "push", "pop"):
+        fref, loop = _object_loop(ctx, f"{op}_states")
+        sp = loop.target.id
+        body = [s_ for s_ in loop.body if not isinstance(s_, ast.Assign)]
+        first_two = body[:2]
+        ren = {sp: "state_params"}
+        want = [norm.formula(ast.parse("params_obj_type in state_params.objects('skip_types')", mode="eval").body),
+                norm.formula(ast.parse("params_obj_type == 'nets/vms/images' and state_params.get_boolean('image_readonly', False)", mode="eval").body)]
+        ok = len(first_two) == 2 and all(isinstance(i, ast.If) and not i.orelse and isinstance(i.body[-1], ast.Continue) and not any(isinstance(x, (ast.Raise, ast.Return, ast.Break)) for x in ast.walk(i)) for i in first_two)
+        if ok:
+            ok = all(norm.equivalent(norm.formula(i.test, rename=ren), w) for i, w in zip(first_two, want))
+        lead = [ast.unparse(s_.targets[0]) for s_ in loop.body[:2] if isinstance(s_, ast.Assign)]
+        ok = ok and sorted(lead) == ["params_obj_name", "params_obj_type"]
+        ctx.record(rule, "GUARD", fref, f"{op}_states: per object, first `type in skip_types -> next object`, then `read-only image -> next object`", ok, {},
+                   "" if ok else f"{op}_states no longer leaves skipped object types / read-only images alone before anything else")
+
+
 def iteration_order(ctx: Ctx, rule: str) -> None:
     """_parametric_object_iteration is a post-order walk: an object's components are yielded before the object itself.
 
@@ -458,6 +478,7 @@ def object_param_provenance(ctx: Ctx, rule: str) -> None:
 
 def run(ctx: Ctx) -> None:
     ctx.call(iteration_order, "11")
+    ctx.call(skip_guards_first, "13")
     ctx.call(object_param_provenance, "12")
     ctx.call(op_table, "1", "get")
     ctx.call(op_table, "2", "set")
@@ -473,6 +494,7 @@ def run(ctx: Ctx) -> None:
 
 
 MUTANTS = [
+    ("show-lists-skipped-types", SETUP, "    states = []\n    for state_params in _parametric_object_iteration(run_params):\n        params_obj_name = state_params[\"object_name\"]\n        params_obj_type = state_params[\"object_type\"]\n        if params_obj_type in state_params.objects(\"skip_types\"):", "    states = []\n    for state_params in _parametric_object_iteration(run_params):\n        params_obj_name = state_params[\"object_name\"]\n        params_obj_type = state_params[\"object_type\"]\n        if params_obj_type not in state_params.objects(\"skip_types\"):", "13"),
     ("push-touches-readonly-image", SETUP, "        if params_obj_type == \"nets/vms/images\" and state_params.get_boolean(\n            \"image_readonly\", False\n        ):\n            logging.warning(\n                f\"Incorrect configuration: cannot use any state \"\n                f\"from readonly image {params_obj_name} - skipping\"\n            )\n            continue\n\n        if not state_params.get(\"push_state\"):",
      "        if not state_params.get(\"push_state\"):", "5u"),
     ("get-abort-ignored", SETUP, "        if not state_exists and \"a\" == action_if_doesnt_exist:\n            logging.info(\"Aborting because of missing snapshot for setup\")",
